@@ -541,6 +541,27 @@ def sync_rotation_scenario(rng, size='quick', **over):
     return lines
 
 
+def sync_stall_scenario(rng, size='quick', **over):
+    """C12: a write is acknowledged while the background sync that an earlier write requested is still inside `sync_all`
+    (held there by a pause failpoint): once the sync has returned, the bytes of that write must not stay un-synced above
+    the limit without any further client action"""
+    limit = rng.choice([0, 100, 1000])
+    c, line = cfg_line(rng, dup=1, dirty=limit, rt=rng.choice(['mt', 'ct']), **over)
+    keys = mk_keys(rng, c['key'], 3)
+    lines = [line, 'states', 'trace', 'fstates', f'w {keys[0]} 5 - 10 1', 'states', 'trace', 'fstates', 'nomodel']
+    seed = 2
+    for rnd in range(rng.choice([1, 2])):
+        lines += ['fault sync 0 .blob pause:1', f'releaselater 1 {rng.choice([250, 400])}',
+                  f'w {rng.choice(keys)} 5 - {limit + rng.choice([200, 1200])} {seed}', 'states', 'wait 80']
+        seed += 1
+        for _ in range(rng.choice([1, 2])):
+            lines += [f'w {rng.choice(keys)} 7 - {limit + rng.choice([200, 600])} {seed}', 'states']
+            seed += 1
+        lines += ['wait 700', 'clearfaults', 'states', 'trace', 'fstates']
+    lines += ['settle', 'trace', 'fstates', 'close', 'trace', 'open', 'trace', 'fstates']
+    return lines
+
+
 def sync_fault_scenario(rng, size='quick', **over):
     """C12: a sync of a blob file fails right where an index is about to be written (close of the active blob, dump of
     a closed blob, close of the storage): an index must not be marked complete for bytes that were not synced"""
